@@ -6,6 +6,38 @@ func init() {
 	vHarnesses["VerifC17Flat"] = VerifC17Flat
 	vHarnesses["VerifC17Docs"] = VerifC17Docs
 	vHarnesses["VerifC17Canary"] = VerifC17Canary
+	vHarnesses["VerifC17Deep"] = VerifC17Deep
+}
+
+// VerifC17Deep: arrays and small objects below a chain of keys / array positions of every
+// length up to DEPTH (path slices of every length and spare capacity).
+func VerifC17Deep() {
+	k := vMetaChoice(0x11)
+	depth := vChoice(vParam("DEPTH", 7) + 1)
+	var a, b JsonNode
+	if vChoice(2) == 0 {
+		n := vParam("N", 3)
+		a, b = vNumArray(n), vNumArray(n)
+	} else {
+		oa, ob := jsonObject{}, jsonObject{}
+		for _, key := range []string{"a", "b", "c"} {
+			if vChoice(2) == 1 {
+				oa[key] = vNum()
+			}
+			if vChoice(2) == 1 {
+				ob[key] = vNum()
+			}
+		}
+		a, b = oa, ob
+	}
+	for i := 0; i < depth; i++ {
+		if vParam("CHAINKINDS", 1) > 1 && vChoice(2) == 1 {
+			a, b = jsonArray{a}, jsonArray{b}
+		} else {
+			a, b = jsonObject{"p": a}, jsonObject{"p": b}
+		}
+	}
+	vC17Check(a, b, k, "c17.deep")
 }
 
 // vC17Check: v1 diff-then-patch (directly and through Render/ReadDiffString) and diff-empty <=> Equals.
